@@ -270,10 +270,18 @@ func (i *Instance) Restart(newCasketfile Input) (inst *Instance, err error) {
 	// restart has succeeded, whatever the old instance's shutdown callbacks
 	// report. All of them run; their errors are logged (as at process
 	// shutdown) and do not turn the restart into a failed one.
+	// The same holds for one that panics: it is logged and the others run.
 	for _, shutdownFunc := range i.OnShutdown {
-		if cbErr := shutdownFunc(); cbErr != nil {
-			log.Printf("[ERROR] Shutdown callback of the replaced instance: %v", cbErr)
-		}
+		func() {
+			defer func() {
+				if r := recover(); r != nil {
+					log.Printf("[PANIC] Shutdown callback of the replaced instance: %v", r)
+				}
+			}()
+			if cbErr := shutdownFunc(); cbErr != nil {
+				log.Printf("[ERROR] Shutdown callback of the replaced instance: %v", cbErr)
+			}
+		}()
 	}
 
 	// Execute instantiation events
